@@ -456,6 +456,87 @@ def normalise(text, cnt, vis=True):
 
 
 # --------------------------------------------------------------------------
+# N14: automatic inlining of small helper functions that the templates do not know about
+AUTO_INLINE = [x for x in os.environ.get('VERIF_AUTO_INLINE', '').split(',') if x]
+
+
+def find_helper(relfile, name):
+    """Locate `fn name` anywhere (non-test) in relfile; returns (params, body_text, has_self) or None."""
+    src = load(relfile)
+    mask = code_mask(src)
+    for m in re.finditer(r'\bfn\s+' + re.escape(name) + r'\b', src):
+        if not mask[m.start()]:
+            continue
+        # skip functions inside `#[cfg(test)] mod x { .. }`
+        in_test = False
+        for tmm in re.finditer(r'#\[cfg\(test\)\]\s*(pub(\([^)]*\))?\s+)?mod\s+\w+\s*\{', src):
+            ob_ = tmm.end() - 1
+            if ob_ < m.start() <= match_close(src, ob_):
+                in_test = True
+        if in_test:
+            continue
+        q = m.end()
+        while src[q].isspace():
+            q += 1
+        if src[q] == '<':
+            return None  # generic helpers are not inlined
+        if src[q] != '(':
+            return None
+        pc = match_close(src, q)
+        params = _split_args(src[q + 1:pc])
+        ob = None
+        for k, kind, t in scan(src, pc + 1):
+            if kind == 'code' and t in '{;':
+                ob = k
+                break
+        if ob is None or src[ob] == ';':
+            return None
+        close = match_close(src, ob)
+        body = src[ob:close + 1]
+        if re.search(r'\breturn\b|\bloop\b|\bwhile\b|\bfor\b', strip_code_words(body)) or re.search(r'\b' + re.escape(name) + r'\s*\(', body):
+            return None
+        has_self = bool(params) and re.match(r'&?\s*(mut\s+)?self\b', params[0]) is not None
+        names = []
+        for prm in (params[1:] if has_self else params):
+            pm = re.match(r'(mut\s+)?(\w+)\s*:', prm.strip())
+            if not pm:
+                return None
+            names.append(pm.group(2))
+        return names, body, has_self
+    return None
+
+
+def strip_code_words(text):
+    return ''.join(t if kind == 'code' else ' ' for _, kind, t in scan(text))
+
+
+def auto_inline(body, relfile, cnt):
+    for name in AUTO_INLINE:
+        h = find_helper(relfile, name)
+        if not h:
+            continue
+        names, hbody, has_self = h
+        while True:
+            mask = code_mask(body)
+            hit = None
+            for m in re.finditer(r'((self\s*\.\s*)|(Self\s*::\s*))?\b' + re.escape(name) + r'\s*\(', body):
+                if mask[m.start()] and (m.start() == 0 or not (body[m.start() - 1].isalnum() or body[m.start() - 1] in '_.')) or (mask[m.start()] and m.group(1)):
+                    hit = m
+                    break
+            if not hit:
+                break
+            po = hit.end() - 1
+            pc = match_close(body, po)
+            args = _split_args(body[po + 1:pc])
+            if len(args) != len(names):
+                break
+            lets = ' '.join('let %s = %s;' % (n, a) for n, a in zip(names, args))
+            body = body[:hit.start()] + '{ ' + lets + ' ' + hbody + ' }' + body[pc + 1:]
+            cnt['N14'] = cnt.get('N14', 0) + 1
+    return body
+
+
+# --------------------------------------------------------------------------
 # loops
 
 def find_loops(body):
@@ -760,6 +841,8 @@ def process_fn_block(head, lines, meta, stub=False):
         sig = sig[:pc + 1] + m.group(1) + '(' + ret + ': ' + m.group(2).strip() + ')' + m.group(3)
 
     # ---- body
+    if AUTO_INLINE:
+        body = auto_inline(body, relfile, cnt)
     body = normalise(body, cnt, vis=False)
     for sb in subs:
         if sb[0] == 'sub':
